@@ -325,6 +325,10 @@ def gen(rng, want=None):
         w.triggers.append(list(s))
         if op == "joinword" or op == "joinnum" or op == "largesign":
             w.triggers.append(list(s) + [0x20] + _word(rng, w, 1, 3, w.letters + w.digits))
+            # at the very END of the input, followed by blanks only: the look-ahead over the blanks has to stop at the
+            # end of the input (seeded change C01-E read the element behind it)
+            w.tails.append(list(s) + [0x20] * rng.randint(1, 3))
+            w.tails.append([rng.choice(w.digits)] + list(s) + [0x20])
         if op in ("begnum", "midnum", "endnum", "decpoint", "joinnum"):
             w.triggers.append([rng.choice(w.digits)] + list(s) + [rng.choice(w.digits)])
             w.triggers.append(list(s) + [rng.choice(w.digits)])
